@@ -105,17 +105,21 @@ PROPS["C04"] = {
     "obligations": [{"name": "Shape_Jcs", "facts": "module:Jcs"}, 
         {"name": "C04_commitmentShape", "facts": ["commitmentInnerHash", "commitmentFromRevealCalls"]},
     ],
-    "streams": [{"gen": "C04", "quick": 4000, "thorough": 150000}],
-    "label": lambda r: _lab(r, "c" if r["model"].get("commitment") else "noc", "fr" if r["model"].get("from_reveal") else "nofr"),
-    "shape": lambda r: [r["case"]["jwk"], r["case"]["code"], r["case"]["rv"]],
+    "streams": [{"gen": "C04", "quick": 4000, "thorough": 150000}, {"gen": "C04chain", "quick": 400, "thorough": 15000}],
+    "label": lambda r: ("chain/len=%d/algs=%s" % (len(r["case"]["reqs"]), "+".join(str(a) for a in r["case"]["cfg"].get("multihashAlgorithms", []))) if r["kind"] == "getters" else
+                        _lab(r, "c" if r["model"].get("commitment") else "noc", "fr" if r["model"].get("from_reveal") else "nofr")),
+    "shape": lambda r: r["case"]["reqs"] if r["kind"] == "getters" else [r["case"]["jwk"], r["case"]["code"], r["case"]["rv"]],
     "rule": "JWKs of the five key types (with/without nonce of several sizes, Ed25519 with empty y, RSA-shaped, extra members, empty), both algorithms and unsupported codes; "
             "reveal values: own, another key's, unsupported code, malformed, random digest of several lengths. Compared: GetCommitment, GetRevealValue, "
-            "GetCommitmentFromRevealValue (given and own). All cases non-trivial; distinct = distinct (jwk, code, rv).",
+            "GetCommitmentFromRevealValue (given and own). Chains create -> (update | recover)* -> deactivate of 2-12 real signed operations (one or both hash algorithms "
+            "configured, in either order; occasionally an element with a member deleted): Parser.GetRevealValue and Parser.GetCommitment of every element. All cases non-trivial.",
     "technique": "Lean 4 theorems parametric in the hash family + differential correspondence with real SHA-2",
     "level_text": "Proved in Lean: reveal = multihash(H(JCS(jwk))), commitment = multihash(H(H(JCS(jwk)))), commitmentFromReveal(reveal(k)) = commitment(k) for every key and "
                   "supported code; keys with different canonical JWK (any member, nonce included) have different commitments and reveal values or an explicit collision exists. "
-                  "The chain statement about Parser.GetRevealValue/GetCommitment is checked by the `chain` correspondence stream once the parser model is in scope (see level_note).",
-    "level_note": "Trusted: Lean kernel; extractor; harness. The parser-level chain half currently rests on correspondence only.",
+                  "Chain (Props/C04Chain.lean): the reveal value the parser reports for an update, recover or deactivate is the reveal value of the key inside its signed data "
+                  "(reveal_maps_to_signing_key_commitment), so if the preceding operation on the chain published that key's commitment the two are linked (chain_linked); a deactivate "
+                  "reports no next commitment; an update reports its delta's update commitment and a recover its signed recovery commitment (commitment_reported).",
+    "level_note": "Trusted: Lean kernel; extractor; harness.",
 }
 
 PROPS["C13"] = {
@@ -569,19 +573,37 @@ PROPS["C17"] = {
                   "written in the harness (key ids, purposes, services, also-known-as survive; same input gives the same DID).",
 }
 
+def _c18_info_property(r):
+    """canonical and equivalent ids "as given": the published info names the canonical id and one id per equivalent reference"""
+    if r["kind"] != "tinfo" or not r["case"].get("published"):
+        return None
+    c, info = r["case"], r["impl"].get("info") or {}
+    canonical = c["ns"] + (":" + c["cr"] if c["cr"] else "") + ":" + c["suffix"]
+    want = [canonical] + [c["ns"] + ":" + e + ":" + c["suffix"] for e in (c.get("er") or [])]
+    if info.get("canonicalId") != canonical:
+        return "tinfo/canonical-id"
+    if info.get("equivalentId") != want:
+        return "tinfo/equivalent-ids-not-as-given"
+    return None
+
+
 PROPS["C18"] = {
     "theorem_modules": ["Sidetree.Props.C18"],
     "prescribes": "Sidetree.Transformer.transform (Props.C18)",
     "obligations": [{"name": "Shape_Transformer", "facts": "module:Transformer"}, {"name": "C18_tables", "facts": ["keyContexts", "purposeSwitch", "sortCmp"]}],
-    "streams": [{"gen": "C18", "quick": 4000, "thorough": 200000}],
+    "streams": [{"gen": "C18", "quick": 4000, "thorough": 200000}, {"gen": "C18info", "quick": 600, "thorough": 20000}],
     "compare": _cmp_transform,
-    "label": lambda r: r["model"].get("class", "?") + "/" + ("base" if r["case"]["opts"].get("base") else "abs") + ("/pub" if r["case"]["opts"].get("pub") else "") + ("/unpub" if r["case"]["opts"].get("unpub") else ""),
-    "nontrivial": lambda r: r["model"].get("class") == "ok",
-    "shape": lambda r: [r["case"]["state"], r["case"]["info"], r["case"]["opts"]],
+    "property_check": lambda r: _c18_info_property(r),
+    "label": lambda r: ("tinfo/" + ("published/refs=%d%s" % (len(r["case"].get("er") or []), "/canonical" if r["case"].get("cr") else "") if r["case"].get("published") else
+                                   "unpublished" + ("/label" if r["case"].get("label") else "") + ("/domain" if r["case"].get("domain") else "") + ("/long" if r["case"].get("jcs") else "")))
+                       if r["kind"] == "tinfo" else
+                       r["model"].get("class", "?") + "/" + ("base" if r["case"]["opts"].get("base") else "abs") + ("/pub" if r["case"]["opts"].get("pub") else "") + ("/unpub" if r["case"]["opts"].get("unpub") else ""),
+    "nontrivial": lambda r: r["kind"] == "tinfo" or r["model"].get("class") == "ok",
+    "shape": lambda r: r["case"] if r["kind"] == "tinfo" else [r["case"]["state"], r["case"]["info"], r["case"]["opts"]],
     "rule": "internal documents with 0-4 keys of every type (JWK of every curve, base58, Ed25519 keys for the 2018/2020 types incl. wrong-width ones, no material, unknown type), every subset "
             "and order of purposes, 0-3 services with every endpoint shape and extra members, also-known-as; states with and without commitments, anchor origin, times, version id, "
             "deactivated flag; published and unpublished operation lists with arbitrary (time, number) pairs incl. disagreeing ones, exact duplicates and repeated canonical references; "
-            "info with and without canonical / equivalent ids, occasionally without id / published; all 16 option combinations and 0-3 method contexts; every fourth state also goes through the generic document transformer (doctransformer). Compared: the whole result "
+            "info with and without canonical / equivalent ids, occasionally without id / published; all 16 option combinations and 0-3 method contexts; every fourth state also goes through the generic document transformer (doctransformer). The transformation info docutil builds for published (canonical reference, 0-3 equivalent references) and unpublished (label, domain, long form) states. Compared: the whole result "
             "(operations with equal (time, number) as multisets). Non-trivial = transformed; distinct = distinct (state, info, options).",
     "technique": "Lean 4 theorems (sorted permutation, de-duplication, per-key fields, relationships, contexts, metadata table) + go/ast table obligations + differential correspondence",
     "level_text": "Proved in Lean: operations are listed as a permutation of the input sorted lexicographically by (transaction time, transaction number); the published list has no canonical "
@@ -818,5 +840,14 @@ PROPS["C20"] = {
     "level_note": "partial: the Go memory model, sync.RWMutex itself and the scheduler are not modelled; 'no execution contains a data race' is established for the executions the stress "
                   "run explores under the race detector, not proved. Trusted: Lean kernel; extractor; harness; the race detector.",
 }
+
+PROPS["C04"]["theorem_modules"] = ["Sidetree.Props.C04", "Sidetree.Props.C04Chain"]
+PROPS["C04"]["obligations"] = PROPS["C04"]["obligations"] + _PARSER_OBL
+
+# every declaration of every source file a property is anchored in (properties.jsonl), as one fact per file:
+# a change anywhere in an anchored file breaks an obligation of that property, also in helpers no
+# hand-picked skeleton names
+for _pid, _spec in PROPS.items():
+    _spec["obligations"] = list(_spec.get("obligations", [])) + [{"name": "Shape_Anchors" + _pid, "facts": "module:Anchors" + _pid}]
 
 NOT_CLAIMED = {}
